@@ -97,6 +97,14 @@ impl Formatter {
         // Trim leading and trailing whitespace from the docstring content
         // to ensure idempotent formatting
         let trimmed = doc.trim();
+        // The text is written between triple quotes, where the lexer still reads escapes: a backslash of the value
+        // has to be written as `\\`, or the next parse yields another docstring. Quotes stay as they are unless
+        // they would end the literal early (`"""` inside the text, or a quote right before the closing `"""`).
+        let mut escaped = trimmed.replace('\\', "\\\\");
+        if escaped.contains("\"\"\"") || escaped.ends_with('"') {
+            escaped = escaped.replace('"', "\\\"");
+        }
+        let trimmed = escaped.as_str();
         if trimmed.is_empty() {
             self.writer.writeln("\"\"\"\"\"\"");
         } else if trimmed.contains('\n') {
